@@ -67,6 +67,7 @@ type HarnessSpec struct {
 	Stubs     []string          `json:"stubs,omitempty"`
 	NoReplay  bool              `json:"no_replay,omitempty"`  // abstract modes: models are candidates only
 	ReplayEntry string          `json:"replay_entry,omitempty"`
+	ReplayModels int            `json:"replay_models,omitempty"` // with replay_entry: number of models enumerated until one satisfies the native assumptions
 	RaceEntry string            `json:"race_entry,omitempty"` // native function run under the race detector to confirm an effect finding // native function that rebuilds inputs from the model (harnesses with havoc cuts)
 	Validate  int               `json:"validate,omitempty"`   // number of concrete translator-validation inputs
 	Renames   map[string]string `json:"renames,omitempty"`    // callee full name -> harness function name
